@@ -180,7 +180,7 @@ Variable uenv : Z -> list action.
 (* ---- registrations *)
 Lemma abs_reg : forall s a, WF s -> abs (do_reg false s a) = q_reg (abs s) a.
 Proof.
-  intros s a H. destruct a as [d fl cb|fl cb|k x fl cb|id|]; cbn [do_reg q_reg]; try reflexivity.
+  intros s a H. destruct a as [d fl cb|fl cb|k x fl cb|id| |]; cbn [do_reg q_reg]; try reflexivity.
   - unfold abs. cbn [timers laters run_timers run_laters ios sigs procs next_id now iter log set_next set_timers q_pq q_next q_now].
     rewrite timer_insert_pq; [reflexivity|].
     destruct (Below_parts s (wf_below s H)) as [Ht _]. exact Ht.
@@ -189,7 +189,7 @@ Qed.
 
 Lemma WF_reg : forall s a, WF s -> WF (do_reg false s a).
 Proof.
-  intros s a H. destruct a as [d fl cb|fl cb|k x fl cb|id|]; cbn [do_reg]; try exact H.
+  intros s a H. destruct a as [d fl cb|fl cb|k x fl cb|id| |]; cbn [do_reg]; try exact H.
   - destruct H as [Hu Hb Hs]. destruct (Below_parts s Hb) as [B1 [B2 [B3 [B4 [B5 [B6 B7]]]]]].
     constructor.
     + intros i. specialize (Hu i). unfold cnt_all in *.
@@ -220,6 +220,7 @@ Proof.
     + exact (proj1 (Below_reg false s (AWatch KIo x fl cb) Hb)).
     + exact (proj1 (Below_reg false s (AWatch KSig x fl cb) Hb)).
     + exact (proj1 (Below_reg false s (AWatch KProc x fl cb) Hb)).
+  - destruct H as [Hu Hb Hs]. constructor; assumption.
 Qed.
 
 Lemma sim_regs : forall l s, WF s -> abs (do_regs false s l) = q_regs (abs s) l /\ WF (do_regs false s l).
@@ -314,14 +315,14 @@ Proof. intros s id H. exact (proj2 (sim_cancel s id H)). Qed.
 (* ---- actions *)
 Lemma abs_action : forall s a, WF s -> abs (do_action false uenv s a) = q_action uenv (abs s) a.
 Proof.
-  intros s a H. destruct a as [d fl cb|fl cb|k x fl cb|id|]; cbn [do_action q_action];
+  intros s a H. destruct a as [d fl cb|fl cb|k x fl cb|id| |]; cbn [do_action q_action];
     try (apply abs_reg; exact H).
   exact (proj1 (sim_cancel s id H)).
 Qed.
 
 Lemma WF_action : forall s a, WF s -> WF (do_action false uenv s a).
 Proof.
-  intros s a H. destruct a as [d fl cb|fl cb|k x fl cb|id|]; cbn [do_action];
+  intros s a H. destruct a as [d fl cb|fl cb|k x fl cb|id| |]; cbn [do_action];
     try (apply WF_reg; exact H).
   apply WF_cancel. exact H.
 Qed.
@@ -489,7 +490,7 @@ Qed.
 (* tickit_evloop_invoke_timers = detach (due prefix = the due timers, by sortedness), then finish *)
 Definition detached (s : st) : st :=
   mkSt (filter (fun w => negb (w_x w <=? now s)) (timers s)) [] (ios s) (sigs s) (procs s)
-       (filter (fun w => w_x w <=? now s) (timers s)) (laters s) (next_id s) (now s) (iter s) (log s).
+       (filter (fun w => w_x w <=? now s) (timers s)) (laters s) (next_id s) (now s) (iter s) (log s) (dropped s).
 
 Lemma invoke_timers_finish : forall s, run_timers s = [] -> run_laters s = [] -> xsorted (timers s) ->
   invoke_timers false env uenv s = finish (detached s).
